@@ -80,6 +80,9 @@ def run_chunk(mod_name, inst_name, prefix, budget_paths, budget_s):
             out["paths"] += 1
             work.extend(e.work)
         finally:
+            sc = getattr(e, "sched", None)
+            if sc is not None:
+                sc.shutdown(); e.sched = None
             e.solver.pop()
         if out["inconclusive"]:
             break
@@ -174,5 +177,8 @@ def run_concrete(mod_name, inst_name, case):
         except Panic as ex:
             return {"panic": ex.kind, "where": ex.where}
     finally:
+        sc = getattr(e, "sched", None)
+        if sc is not None:
+            sc.shutdown(); e.sched = None
         e.concrete = None
         e.solver.pop()
